@@ -279,6 +279,13 @@ class Ctx:
                     closure.append(".".join(rel.parts))
             self.cov["leanchecker_modules"] = len(closure)
             r = run(["lake", "env", "leanchecker"] + closure, cwd=LEAN, timeout=3000)
+            if r.returncode in (137, 143, -9, -15) and not (r.stdout + r.stderr).strip():
+                # killed from outside (observed: out of memory with four thorough commands at once, each re-checker holding
+                # several GB): that is not a rejection — try once more, then give up as an infrastructure failure
+                time.sleep(20)
+                r = run(["lake", "env", "leanchecker"] + closure, cwd=LEAN, timeout=3000)
+                if r.returncode in (137, 143, -9, -15) and not (r.stdout + r.stderr).strip():
+                    raise InfraError(f"leanchecker was killed twice (exit {r.returncode}, no output): not enough memory for the re-check")
             self.cov["leanchecker_exit"] = r.returncode
             if r.returncode != 0:
                 self.proof_broken.append("leanchecker rejected: " + (r.stdout + r.stderr)[-800:])
